@@ -707,6 +707,11 @@ func (m *Mast) Clone(ctx context.Context) (Mast, error) {
 
 // IsDirty signifies that in-memory values have been Set() or merged that haven't been Save()d.
 func (m *Mast) IsDirty() bool {
+	if m.root == nil {
+		// only a tree emptied by deletes has no root node at all (a tree loaded from an empty
+		// version has a placeholder node): it differs from the version it was loaded from
+		return true
+	}
 	if node, ok := m.root.(*mastNode); ok {
 		return node.dirty
 	}
